@@ -416,6 +416,20 @@ def c11(ctx):
                               'the %s machine writes into %s' % (which, e['region']))
                 if e['k'] == 'st' and not ex.own(e['loc']) and e['loc'] != ('S', 'hold_exit_status') and e.get('via') is None:
                     ctx.check('stable-source', False, t.site(e), 'the %s machine stores %s of the other machine' % (which, '.'.join(map(str, e['loc'][1:]))))
+            # apart from the arbitration state (and, for events, the line-ending and hold flags) a machine
+            # does not look at the other machine's fields: its units do not depend on the other's progress
+            allowed_reads = ({('S', 'unsolicited_fsm', 'state'), ('S', 'unsolicited_fsm', 'unsolicited_cmd_buffer_items_count')} if which == 'cmd' else
+                             {('S', 'state'), ('S', 'cr_flag'), ('S', 'hold_state_flag'), ('S', 'hold_exit_status'),
+                              ('S', 'desc'), ('S', 'io'), ('S', 'mutex'), ('S', 'commands_num')})
+            for e in t.events:
+                if e['k'] == 'ld' and not ex.own(e['loc']) and e['loc'] not in allowed_reads and e['loc'][:2] != ('S', 'desc'):
+                    if which == 'cmd' and e['loc'] in (('S', 'desc'), ('S', 'io'), ('S', 'mutex')):
+                        continue
+                    key_ = ('rd', e.get('line'), e['loc'])
+                    if key_ in ctx.extra.setdefault('_indep', set()):
+                        continue
+                    ctx.extra['_indep'].add(key_)
+                    ctx.check('independent', False, t.site(e), 'the %s machine reads %s, a field of the other machine' % (which, '.'.join(map(str, e['loc'][1:]))))
             if t.frm in (flush_name, wait_name):
                 wr = [e for e in t.events if e['k'] == 'wr' and e['region'][0] in ('BUF', 'BUFHI', 'UBUF')]
                 ctx.check('stable-source', not wr, t.site(wr[0] if wr else None), 'the buffer is modified while it is being emitted')
